@@ -345,7 +345,24 @@ def gen_lazyedit(run):
             yield "lazyedit %s %s %d %d" % (pl.hex(), _rand_ops(rng, ntr, 3), rng.randrange(0, ntr + 1), rng.choice([0, 1, 2, 5, 33])), "lazyedit-random"
 
 
-GENERATORS = [gen_hdrparse, gen_hdrmk, gen_lazy, gen_lazyedit]
+def gen_ftypbox(run):
+    """one ftyp box (the other typed top-level box besides moov), every header form, payload lengths 0..40 incl. every residue modulo 4
+    (the brand array keeps a trailing partial brand), unparsed and lazily parsed before it is written back"""
+    import mp4gen as G
+    rng = run.rng
+    quick = run.tier == "quick"
+    for n in list(range(0, 24)) + [31, 32, 33, 39, 40, 1023, 1024, 1025]:
+        pl = bytes((37 * i + 5) % 256 for i in range(n))
+        for form in ("32", "64", "eof"):
+            for force in (0, 1):
+                yield "ftypbox %s %d" % (G.box(b"ftyp", pl, form=form).hex(), force), "ftypbox"
+    for _ in range(20 if quick else 1000):
+        n = rng.randint(0, 60)
+        b = G.box(b"ftyp", bytes(rng.randrange(256) for _ in range(n)), form=rng.choice(["32", "64", "eof"])) + bytes(rng.randrange(256) for _ in range(rng.choice([0, 0, 3, 8])))
+        yield "ftypbox %s %d" % (b.hex(), rng.randint(0, 1)), "ftypbox"
+
+
+GENERATORS = [gen_hdrparse, gen_hdrmk, gen_lazy, gen_lazyedit, gen_ftypbox]
 
 
 def gen(run):
@@ -372,6 +389,8 @@ def classify(line, impl):
     if not impl:
         return kind + ":missing"
     t = impl.split()
+    if kind == "ftypbox":
+        return "ftypbox:" + (" ".join(t[:4]) if t[0] != "ok" else "ok-forced" if line.split()[2] == "1" else "ok-raw")
     if kind == "lazyedit":
         if t[0] != "ok":
             return "lazyedit:" + " ".join(t[:4])
@@ -558,7 +577,25 @@ def oracle_lazyedit(line, impl):
     return (not probs), "; ".join(probs) or "ok"
 
 
-ORACLES = {"hdrparse": oracle_hdrparse, "hdrmk": oracle_hdrmk, "lazy": oracle_lazy, "lazyedit": oracle_lazyedit}
+def oracle_ftypbox(line, impl):
+    """writing a parsed box reproduces the bytes of that box and writes exactly encoded_len bytes, lazily parsed or not"""
+    if impl in ("panic", "missing", ""):
+        return False, "no result (%s)" % (impl or "missing")
+    if not impl.startswith("ok "):
+        return impl.startswith("err parse"), "not parsed: nothing to judge (%s)" % impl
+    f = dict(tok.split("=", 1) for tok in impl.split()[1:])
+    put = bytes.fromhex(f["put"]) if f.get("put", "-") != "-" else b""
+    data = bytes.fromhex(line.split()[1])
+    box_bytes = data[:len(data) - int(f.get("rest", 0))]
+    probs = []
+    if int(f.get("elen", -1)) != len(put):
+        probs.append("encoded_len %s but %d bytes written" % (f.get("elen"), len(put)))
+    if put != box_bytes:
+        probs.append("the bytes written differ from the bytes of the parsed box")
+    return (not probs), "; ".join(probs) or "ok"
+
+
+ORACLES = {"hdrparse": oracle_hdrparse, "hdrmk": oracle_hdrmk, "lazy": oracle_lazy, "lazyedit": oracle_lazyedit, "ftypbox": oracle_ftypbox}
 
 
 def oracle(run, pairs):
